@@ -24,7 +24,8 @@ EXPLANATION = (
     "rows: every solver's row count and the num= of the time axis normalise to round(T/dts); the axis is linspace(0, T, num, "
     "endpoint=False).  R4 cutoff flows only into a label slice .loc[cutoff:] of the frame indexed by the time vector.  R5 the history "
     "of a delayed model is fed with the step's result; R6 its lookup (DDEHistory.__call__) clamps and interpolates between the records "
-    "around the query for any order of reads (the C19-R5 analysis, reused).  NOT decided: "
+    "around the query for any order of reads (the C19-R5 analysis, reused).  R7 run() never reads the end-state record of the previous "
+    "simulation on its way to the solver (row 0 is the declared initial state).  NOT decided: "
     "accuracy of adaptive solvers, correctness of the vector field itself (C01), pandas/numpy semantics."
 )
 RULE_TEXT = ("instances = solver overrides resolved through the MRO; each is summarised by symbolic execution of one step; "
@@ -298,6 +299,37 @@ def r5_history_fed_with_step_result(ctx, rid):
     r4_history_time_units(ctx, rid)
 
 
+def r7_run_starts_from_the_declared_state(ctx, rid):
+    """`run` returns the iterates started at the DECLARED initial state: row 0 is what the template declares (or what the caller
+    passes explicitly).  The template also keeps the END state of every simulation (`_state_var_values`, filled after the solver
+    returns) so that get_run_func can continue from it; run() itself must not read that record on the way to the solver - a second
+    run() of the same template would start where the first one stopped."""
+    from engine.inline import inlined
+    f0 = ctx.repo.get_func("pyrates/frontend/template/circuit.py", "CircuitTemplate.run")
+    f = inlined(ctx, f0)
+    selfn = f0.self_name
+    # the end-state record: the self attribute that is filled from the compiled network's variables after the solver call
+    stores = [st for st in walk_shallow(f.node) if isinstance(st, ast.Assign) and len(st.targets) == 1 and isinstance(st.targets[0], ast.Subscript)
+              and isinstance(st.targets[0].value, ast.Attribute) and isinstance(st.targets[0].value.value, ast.Name)
+              and st.targets[0].value.value.id == selfn and any(isinstance(c, ast.Call) and call_name(c) == "get_var" for c in ast.walk(st.value))]
+    if not stores:
+        raise AnalysisError(f"{rid}: run() no longer records the end state of the simulation on the template (anchor vanished)")
+    rec = stores[0].targets[0].value.attr
+    reads = [n for n in walk_shallow(f.node) if isinstance(n, ast.Attribute) and n.attr == rec and isinstance(n.value, ast.Name) and n.value.id == selfn
+             and isinstance(n.ctx, ast.Load) and not any(n is st.targets[0].value for st in stores)]
+    # reads that only serve the store itself (`self._rec[key] = ...`) are the targets above; `.clear()` is a reset, not a read
+    from engine.srcmodel import parent as _parent
+    reads = [n for n in reads if not (isinstance(_parent(n), ast.Attribute) and _parent(n).attr == "clear")]
+    if reads:
+        n = reads[0]
+        ctx.violation(rid, f0, n, f"run() reads `self.{rec}` - the end state of the PREVIOUS simulation - before it integrates: a second run() of the "
+                                  f"same template (in_place=False, clear=False, or after get_run_func) starts from where the first one stopped, so "
+                                  f"row 0 is not the declared initial state", label="run() starts from the declared initial state")
+    else:
+        ctx.ok(rid, f0, stores[0], f"run() only writes the end-state record `self.{rec}`, it never starts from it",
+               label="run() starts from the declared initial state")
+
+
 def r6_history_lookup(ctx, rid):
     """For a delayed model the iterates are those of the compiled vector field only if the history object the fixed-step solvers
     feed (R5) answers every delayed read - several delays, any order of reads within a step - from the two records around the query
@@ -316,4 +348,5 @@ RULES = [
     ("C03-R4", r4_cutoff, 2),
     ("C03-R5", r5_history_fed_with_step_result, 6),
     ("C03-R6", r6_history_lookup, 3),
+    ("C03-R7", r7_run_starts_from_the_declared_state, 1),
 ]
